@@ -61,3 +61,36 @@ Fixpoint spec_emits (v : view) (ls : list label) : list snapshot :=
 
 Definition view_of_state (s : state) : view :=
   mk_view (owners s) (handle_mode s) (fgs s) (ffs s) (forced s) (log s).
+
+(* ---- the promise checked on the observation of a scheduled (multi-thread) run.
+   The run is a sequence of grants (thread, sync point reached, appends so far); a thread that is not in
+   the middle of an action begins its next action when granted.  Only the user-visible history is used. *)
+Fixpoint nth_default_list {T} (l : list (list T)) (t : nat) : list T :=
+  match l, t with [], _ => [] | x :: _, O => x | _ :: r, S k => nth_default_list r k end.
+
+Definition snap_of_view (v : view) : snapshot := mk_snap (v_owners v) (v_fgs v) (v_forced v) (v_log v).
+Definition snap_eqb (a b : snapshot) : bool :=
+  Nat.eqb (sn_owners a) (sn_owners b) && Nat.eqb (sn_fgs a) (sn_fgs b) && Nat.eqb (sn_forced a) (sn_forced b)
+  && (if list_eq_dec N.eq_dec (sn_log a) (sn_log b) then true else false).
+
+Fixpoint trace_ok (v : view) (rest : list (list label)) (mid : list bool) (prev : nat)
+                  (tr : list (nat * nat * nat)) (recs : list snapshot) : bool :=
+  match tr with
+  | [] => forallb (fun m => negb m) mid &&
+          Nat.eqb prev (if due v then 1 else 0) &&
+          Nat.eqb (length recs) prev
+  | (t, code, cnt) :: r =>
+      let in_mid := nth t mid false in
+      let v1 := if in_mid then v else match nth_default_list rest t with [] => v | l :: _ => view_step v l end in
+      let rest1 := if in_mid then rest else set_nth t (tl (nth_default_list rest t)) rest in
+      let mid1 := set_nth t (negb (Nat.eqb code 0)) mid in
+      Nat.leb prev cnt && Nat.leb cnt 1 &&
+      (* not early *)
+      (if Nat.eqb cnt 1 then due v1 else true) &&
+      (* the world and content at the instant of the append *)
+      (if Nat.eqb cnt 1 && Nat.eqb prev 0
+       then match recs with [sn] => snap_eqb sn (snap_of_view v1) | _ => false end else true) &&
+      (* not late: nobody is inside a destructor *)
+      (if forallb (fun m => negb m) mid1 then Nat.eqb cnt (if due v1 then 1 else 0) else true) &&
+      trace_ok v1 rest1 mid1 cnt r recs
+  end.
